@@ -303,7 +303,9 @@ func stripConv(v ssa.Value) ssa.Value {
 						n++
 						only = r.Val
 					}
-				case *ssa.UnOp, *ssa.MakeClosure, *ssa.DebugRef:
+				case *ssa.MakeClosure:
+					n += storesThroughClosure(r, al, 0)
+				case *ssa.UnOp, *ssa.DebugRef:
 				default:
 					n += 2 // address escapes in another way (field address, call argument): not a plain cell
 				}
@@ -316,6 +318,114 @@ func stripConv(v ssa.Value) ssa.Value {
 			return v
 		}
 	}
+}
+
+// stripConvUp is stripConv that also resolves a load of a captured variable inside a closure to the
+// value stored (exactly once, nowhere else written) into the cell where the closure was made.
+func stripConvUp(v ssa.Value) ssa.Value {
+	v = stripConv(v)
+	u, ok := v.(*ssa.UnOp)
+	if !ok || u.Op != token.MUL {
+		return v
+	}
+	fv, ok := u.X.(*ssa.FreeVar)
+	if !ok {
+		return v
+	}
+	al := cellOfFreeVar(fv)
+	if al == nil {
+		return v
+	}
+	// a load of the cell itself, resolved by stripConv's single-store rule
+	for _, ref := range *al.Referrers() {
+		if ld, ok := ref.(*ssa.UnOp); ok && ld.Op == token.MUL && ld.X == ssa.Value(al) {
+			if r := stripConv(ld); r != ssa.Value(ld) {
+				return r
+			}
+		}
+	}
+	// no load in the parent: apply the same rule by hand
+	var only ssa.Value
+	n := 0
+	for _, ref := range *al.Referrers() {
+		switch r := ref.(type) {
+		case *ssa.Store:
+			if r.Addr == ssa.Value(al) {
+				n++
+				only = r.Val
+			}
+		case *ssa.MakeClosure:
+			n += storesThroughClosure(r, al, 0)
+		case *ssa.UnOp, *ssa.DebugRef:
+		default:
+			n += 2
+		}
+	}
+	if n == 1 {
+		return stripConv(only)
+	}
+	return v
+}
+
+// cellOfFreeVar: the Alloc bound to free variable fv where its closure is created (nil if ambiguous).
+func cellOfFreeVar(fv *ssa.FreeVar) *ssa.Alloc {
+	fn := fv.Parent()
+	par := fn.Parent()
+	if par == nil {
+		return nil
+	}
+	idx := -1
+	for i, f := range fn.FreeVars {
+		if f == fv {
+			idx = i
+		}
+	}
+	var cell *ssa.Alloc
+	n := 0
+	for _, b := range par.Blocks {
+		for _, in := range b.Instrs {
+			mc, ok := in.(*ssa.MakeClosure)
+			if !ok || mc.Fn != ssa.Value(fn) || idx < 0 || idx >= len(mc.Bindings) {
+				continue
+			}
+			n++
+			cell, _ = mc.Bindings[idx].(*ssa.Alloc)
+		}
+	}
+	if n != 1 {
+		return nil
+	}
+	return cell
+}
+
+// storesThroughClosure counts the stores a closure (and closures nested in it) makes into the cell al
+// that it captured; an address use other than load/store counts as 2 (not a plain cell).
+func storesThroughClosure(mc *ssa.MakeClosure, al *ssa.Alloc, d int) int {
+	fn, ok := mc.Fn.(*ssa.Function)
+	if !ok || d > 3 {
+		return 2
+	}
+	n := 0
+	for i, b := range mc.Bindings {
+		if b != ssa.Value(al) || i >= len(fn.FreeVars) {
+			continue
+		}
+		fv := fn.FreeVars[i]
+		for _, ref := range *fv.Referrers() {
+			switch r := ref.(type) {
+			case *ssa.Store:
+				if r.Addr == ssa.Value(fv) {
+					n++
+				}
+			case *ssa.UnOp, *ssa.DebugRef:
+			case *ssa.MakeClosure:
+				n += 2
+			default:
+				n += 2
+			}
+		}
+	}
+	return n
 }
 
 func isNilConst(v ssa.Value) bool {
